@@ -1,4 +1,5 @@
 import PRV.Driver.C19
+import PRV.Driver.C10
 
 open PRV.Driver
 
@@ -6,4 +7,6 @@ def main (args : List String) : IO UInt32 := do
   match args with
   | ["model", "c19"] => run (C19.machine false); return 0
   | ["spec", "c19"] => run (C19.machine true); return 0
+  | ["model", "c10"] => run C10.machine; return 0
+  | ["monitor", "c10"] => runMonitor C10.monitor; return 0
   | _ => IO.eprintln "usage: prvdrv (model|spec) <property>"; return 2
